@@ -574,6 +574,34 @@ func c15OtherBaseTypes(c *lib.Ctx, entries []fit.VerifField) {
 						c.Violation(b, "message %d field %d defined with base type %s, size %d: accepted without options (%v) but not with them (%v), or the reverse", e.Mesg, e.Num, bt.Name, sz, derr, derr2)
 						return
 					}
+					// the same once more with look-alikes first: messages the profile does not know
+					// (this message number plus 256, plus 512, with the high byte 0xFF) define a field
+					// with the very same number, size and base type earlier in the file. What was
+					// accepted for them says nothing about this message.
+					if archpv == 0 || archpv == 3 {
+						plan2 := &ref.Plan{HeaderSize: plan.HeaderSize, Proto: plan.Proto, ProfVer: plan.ProfVer}
+						plan2.Records = append(plan2.Records, plan.Records[:2]...)
+						for li, alias := range []uint16{e.Mesg + 256, e.Mesg + 512, 0xFF00 | e.Mesg&0xFF} {
+							if !prof.Known[alias] {
+								plan2.Records = append(plan2.Records,
+									ref.Record{IsDef: true, Local: byte(2 + li), Arch: arch, Global: alias, Fields: []ref.FieldDef{{Num: e.Num, Size: byte(sz), Base: bt.Code}}},
+									ref.Record{Local: byte(2 + li), Data: [][]byte{make([]byte, sz)}})
+							}
+						}
+						plan2.Records = append(plan2.Records, plan.Records[2:]...)
+						b3 := plan2.Bytes()
+						c.SetInflight(b3)
+						_, derr3, out3 := lib.GuardedDecode(b3)
+						c.Eval()
+						if out3.Panicked || out3.Hang {
+							c.Violation(b3, "message %d field %d defined with base type %s, size %d after look-alike definitions of unknown messages: Decode panicked: %s\n%s", e.Mesg, e.Num, bt.Name, sz, out3.Panic, out3.Stack)
+							return
+						}
+						if (derr == nil) != (derr3 == nil) {
+							c.Violation(b3, "message %d field %d defined with base type %s, size %d: %v on its own, but %v after unknown messages defined a field with the same number, size and type", e.Mesg, e.Num, bt.Name, sz, derr, derr3)
+							return
+						}
+					}
 					if derr != nil {
 						c.Count("other_base_type_definitions_rejected", 1)
 						continue
